@@ -79,3 +79,140 @@ impl J {
         }
     }
 }
+
+/// Semantics-preserving re-spelling of the JSON text (RFC 8259): optional white space around every
+/// structural token, and string characters written as escapes (\uXXXX for any character incl. ASCII
+/// letters, surrogate pairs for astral characters, \/ for '/', the short escapes). Number literals and
+/// raw fragments are emitted verbatim. Driven by a seed; style 0 is the compact rendering.
+pub struct Styler {
+    state: u64,
+    /// per-mille probability of escaping a string character
+    pub escape_pm: u64,
+    /// per-mille probability of white space at a token boundary
+    pub ws_pm: u64,
+}
+
+impl Styler {
+    pub fn new(seed: u64) -> Styler {
+        let mut s = Styler { state: seed | 1, escape_pm: 0, ws_pm: 0 };
+        let r = s.next();
+        s.escape_pm = [0, 0, 30, 200, 1000][(r % 5) as usize];
+        s.ws_pm = [0, 100, 600][((r >> 8) % 3) as usize];
+        s
+    }
+    fn next(&mut self) -> u64 {
+        self.state = self.state.wrapping_add(0x9e3779b97f4a7c15);
+        let mut z = self.state;
+        z = (z ^ (z >> 30)).wrapping_mul(0xbf58476d1ce4e5b9);
+        z = (z ^ (z >> 27)).wrapping_mul(0x94d049bb133111eb);
+        z ^ (z >> 31)
+    }
+    fn ws(&mut self, out: &mut String) {
+        if self.next() % 1000 < self.ws_pm {
+            out.push_str([" ", "\n", "\t", "\r\n", "  ", "\n    "][(self.next() % 6) as usize]);
+        }
+    }
+    fn string(&mut self, s: &str, out: &mut String) {
+        out.push('"');
+        for c in s.chars() {
+            let must = matches!(c, '"' | '\\') || (c as u32) < 0x20;
+            if must || self.next() % 1000 < self.escape_pm {
+                match c {
+                    '"' if self.next() % 2 == 0 => out.push_str("\\\""),
+                    '\\' if self.next() % 2 == 0 => out.push_str("\\\\"),
+                    '\n' if self.next() % 2 == 0 => out.push_str("\\n"),
+                    '\r' if self.next() % 2 == 0 => out.push_str("\\r"),
+                    '\t' if self.next() % 2 == 0 => out.push_str("\\t"),
+                    '/' if self.next() % 2 == 0 => out.push_str("\\/"),
+                    c => {
+                        let mut buf = [0u16; 2];
+                        for unit in c.encode_utf16(&mut buf) {
+                            if self.next() % 2 == 0 {
+                                out.push_str(&format!("\\u{:04x}", unit));
+                            } else {
+                                out.push_str(&format!("\\u{:04X}", unit));
+                            }
+                        }
+                    }
+                }
+            } else {
+                out.push(c);
+            }
+        }
+        out.push('"');
+    }
+    pub fn render(&mut self, j: &J, out: &mut String) {
+        match j {
+            J::Null => out.push_str("null"),
+            J::Bool(b) => out.push_str(if *b { "true" } else { "false" }),
+            J::Num(n) | J::Raw(n) => out.push_str(n),
+            J::Str(s) => self.string(s, out),
+            J::Arr(a) => {
+                out.push('[');
+                self.ws(out);
+                for (i, x) in a.iter().enumerate() {
+                    if i > 0 {
+                        self.ws(out);
+                        out.push(',');
+                        self.ws(out);
+                    }
+                    self.render(x, out);
+                }
+                self.ws(out);
+                out.push(']');
+            }
+            J::Obj(o) => {
+                out.push('{');
+                self.ws(out);
+                for (i, (k, v)) in o.iter().enumerate() {
+                    if i > 0 {
+                        self.ws(out);
+                        out.push(',');
+                        self.ws(out);
+                    }
+                    self.string(k, out);
+                    self.ws(out);
+                    out.push(':');
+                    self.ws(out);
+                    self.render(v, out);
+                }
+                self.ws(out);
+                out.push('}');
+            }
+        }
+    }
+}
+
+impl J {
+    /// Renders with a seeded style (see `Styler`); seed % 3 == 0 gives the compact form.
+    pub fn render_styled(&self, seed: u64) -> String {
+        if seed % 3 == 0 {
+            return self.render();
+        }
+        let mut st = Styler::new(seed);
+        let mut out = String::new();
+        st.ws(&mut out);
+        st.render(self, &mut out);
+        st.ws(&mut out);
+        out
+    }
+}
+
+#[cfg(test)]
+mod tests {
+    use super::*;
+    #[test]
+    fn styled_is_equivalent() {
+        let j = J::Obj(vec![
+            ("ty/pe\"\\".into(), J::Str("uint256 \u{e9}\u{1f600}\n\u{1}".into())),
+            ("n".into(), J::Num("1e3".into())),
+            ("a".into(), J::Arr(vec![J::Null, J::Bool(true), J::Obj(vec![])])),
+        ]);
+        let plain: serde_json::Value = serde_json::from_str(&j.render()).unwrap();
+        for seed in 0..500u64 {
+            let t = j.render_styled(seed);
+            let v: serde_json::Value = serde_json::from_str(&t).unwrap_or_else(|e| panic!("{e}: {t}"));
+            assert_eq!(v, plain, "{t}");
+        }
+    }
+}
